@@ -77,3 +77,6 @@ func simMaybeYield() {
 
 //go:linkname sync_simMaybeYield internal/sync.runtime_simMaybeYield
 func sync_simMaybeYield() { simMaybeYield() }
+
+//go:linkname sync_simMaybeYieldRW sync.runtime_simMaybeYield
+func sync_simMaybeYieldRW() { simMaybeYield() }
